@@ -545,3 +545,48 @@ func c06CompressedResponse(proto int, unary bool, payload []byte) *http.Response
 	}
 	return resp
 }
+
+// HarnessC06StreamNon200JSON: a streaming Connect call answered by something
+// that is not the handler - a proxy's or gateway's non-200 response with a
+// JSON body (with or without code and message fields): the call fails with
+// the code derived from the HTTP status unless the body is a valid protocol
+// error, and never with the zero code.
+//
+//verif:harness property=C06 stubs=json,wire
+func HarnessC06StreamNon200JSON() {
+	status := []int{400, 404, 429, 503}[nondetChoice("status", 4)]
+	hasCode, code := c06CodeString()
+	msg := nondetString("message", 1)
+	assumeJSONSafe(msg)
+	body := c06WireError(hasCode, code, msg)
+	header := http.Header{"Content-Type": {"application/json"}}
+	tr := &cannedTransport{resp: &http.Response{StatusCode: status, Status: "status text", ProtoMajor: 2, Header: header, Body: io.NopCloser(&wholeReader{data: body})}}
+	client := NewClient[[]byte, []byte](tr, stackURL, WithCodec(&stackCodec{}), WithCompressMinBytes(1<<20))
+	in := []byte{1}
+	var err error
+	switch nondetChoice("kind", 3) {
+	case 0:
+		stream, serr := client.CallServerStream(context.Background(), NewRequest(&in))
+		err = serr
+		if serr == nil {
+			for stream.Receive() {
+				check(false, "a non-200 response delivers no message")
+				break
+			}
+			err = stream.Err()
+			_ = stream.Close()
+		}
+	case 1:
+		stream := client.CallClientStream(context.Background())
+		_ = stream.Send(&in)
+		_, err = stream.CloseAndReceive()
+	default:
+		stream := client.CallBidiStream(context.Background())
+		_ = stream.Send(&in)
+		_ = stream.CloseRequest()
+		_, err = stream.Receive()
+		_ = stream.CloseResponse()
+	}
+	check(err != nil, "a non-200 streaming response is never a success")
+	c06CheckSafe(err, "Connect stream, non-200 JSON response")
+}
